@@ -33,7 +33,9 @@ CANDS = [
  ("c07_avc_nalu_dec_total", "NALU.UnmarshalBinary",
   [("Proofs.Avc", "avc_nalu_dec_total"), ("Proofs.Avc", "nalu_total")]),
  ("c07_ws_read_total", "WebSocket frame reader",
-  [("Proofs.WsRead", "ws_read_total")]),
+  [("Proofs.WsReadProps", "ws_read_total"), ("Proofs.WsRead", "ws_read_total")]),
+ ("c07_ws_read_total_all", "WebSocket frame reader, fixed and pinned behaviour, from every input",
+  [("Proofs.WsReadProps", "ws_read_total_all")]),
  ("c07_jsonplus_total", "JSON+ reader over every segmentation of the input: no panic and never out of fuel (it always returns)",
   [("Proofs.JsonPlusTotal", "jsonplus_total")]),
  ("c07_jsonplus_strip_total", "JSON+ comment stripping of a whole document",
